@@ -75,6 +75,18 @@ def loop_finally(marker, rounds=3):
     return r
 
 
+def spin_finally(marker):
+    """never returns on its own: only an exception gets it out of the loop; finally records the thread"""
+    try:                                        # SF_TRY_BEGIN
+        i = 0
+        while True:
+            i += 1
+            time.sleep(0.0005)                  # SF_TRY_END
+    finally:
+        with open(marker, 'w') as f:
+            f.write('%d %d %d' % (os.getpid(), threading.get_ident(), threading.get_native_id()))
+
+
 def echo_item(x):
     y = ('r', x)
     return y
